@@ -375,8 +375,69 @@ def c13(p):
     return {"cases": cases, "distinct": distinct, "failures": fails[:5]}
 
 
+# ---------------------------------------------------------- check_results as the safety net, on any rank count
+def _cr_entry(dirname, compl):
+    import esr.generation.simplifier as simplifier
+    simplifier.check_results(dirname, compl)
+    return True
+
+
+def c13cr(p):
+    """Corrupt the recorded map of some functions of a generated library, run the real check_results on P ranks, and require
+    the C03 library predicate afterwards: every function whose map cannot be verified must have been un-merged."""
+    import csv, shutil, random
+    from spmd import run_spmd
+    fails, cases, distinct = [], 0, 0
+    for job in p["jobs"]:
+        runname, n, basis = job["runname"], job["n"], job.get("basis")
+        err = ensure_lib(runname, n, basis)
+        if err:
+            fails.append({"job": job, "error": err})
+            continue
+        d = stages.lib_dir(runname, n)
+        keep = d.rstrip("/") + "_pristine"
+        if os.path.exists(keep):
+            shutil.rmtree(keep)
+        shutil.copytree(d, keep)
+        with open(os.path.join(keep, "inv_subs_%d.txt" % n)) as f:
+            inv = [r for r in csv.reader(f, delimiter=";")]
+        rng = random.Random(p.get("seed", 0) + n)
+        cand = [i for i, r in enumerate(inv) if len(r) > 0 and "nan" not in r]
+        rng.shuffle(cand)
+        chosen = sorted(cand[:job.get("ncorrupt", 6)])
+        for P in job["P_list"]:
+            shutil.rmtree(d)
+            shutil.copytree(keep, d)
+            inv2 = [list(r) for r in inv]
+            for i in chosen:
+                inv2[i] = ["{a0: 2*a0 + 1}"] + inv2[i]
+            with open(os.path.join(d, "inv_subs_%d.txt" % n), "w") as f:
+                csv.writer(f, delimiter=";").writerows(inv2)
+            # how many of them are really wrong now (numerically)?
+            c0, d0, f0 = library_predicate(runname, n, basis, None, 0)
+            wrong = sorted(set(x.get("line") for x in f0 if x.get("line") is not None))
+            r = run_spmd(P, "rt_gen:_cr_entry", (d, n), timeout=600, mpi_timeout=120, quiet=2)
+            ss = [x["status"] for x in r]
+            cases += 1
+            if any(s_ != "ok" for s_ in ss):
+                fails.append({"job": job, "P": P, "error": "check_results on %d ranks did not complete on ranks %s: %s" % (
+                    P, [i for i, s_ in enumerate(ss) if s_ != "ok"][:6], ([x["error"] for x in r if x["error"]] or ["hang"])[0][-400:])})
+                continue
+            c1, d1, f1 = library_predicate(runname, n, basis, None, 0)
+            if wrong:
+                distinct += 1
+            if f1:
+                x = f1[0]
+                fails.append({"job": job, "P": P, "error": "after check_results on %d ranks (maps of functions %s corrupted beforehand, %d numerically wrong): %s" % (
+                    P, chosen, len(f0), x["error"][:500])})
+        shutil.rmtree(d)
+        shutil.copytree(keep, d)
+        shutil.rmtree(keep)
+    return {"cases": cases, "distinct": distinct, "failures": fails[:5]}
+
+
 def main(p):
-    return {"shapes": shapes_check, "c01": c01, "c02": c02, "c03": c03, "c13": c13}[p["mode"]](p)
+    return {"c13cr": c13cr, "shapes": shapes_check, "c01": c01, "c02": c02, "c03": c03, "c13": c13}[p["mode"]](p)
 
 
 if __name__ == "__main__":
